@@ -39,8 +39,11 @@ ASSUMPTIONS = [
     "are plain directories of the container image; container paths do not exist on the host",
     "a link whose target does not exist in the container's view (dangling) is outside the property: any outcome "
     "is accepted for that output path, and failure of the copy is accepted",
-    "chains of up to 10 links must be followed, link cycles must fail; acyclic chains of 11 or more may fail or "
-    "be followed",
+    "a path that leads through up to 11 links (the copier's documented budget: limitFollowSymlinks = 10 follows "
+    "handed on after the first link, i.e. the largest number the unchanged code accepts; every tree with fewer "
+    "links on each path is demanded in full) must be followed, link cycles must fail; acyclic paths through 12 or "
+    "more links may fail or be followed (strictly read, the property text demands them too: a documented limit of "
+    "the copier, see notes/C17.md)",
     "mounted collections have valid manifests in which no path is both a file and a directory",
 ]
 TRUSTED = [
@@ -53,7 +56,8 @@ DRIVERS = {
 }
 
 HOSTOUT = ("h1", "h2", "o")
-LIMIT = 10
+# number of links on one path (chain, or nesting through directory links) up to which the copy must succeed
+MUST_FOLLOW = 11
 
 
 def channel(case):
@@ -516,7 +520,7 @@ def oracle(case, impl):
         return None
     v = view_of(case)
     if impl.startswith("err "):
-        if v.bad or v.cycle or v.free or v.max_used > LIMIT:
+        if v.bad or v.cycle or v.free or v.max_used > MUST_FOLLOW:
             return None
         return "copy failed (%s) although every link leads to a file or directory inside the output directory or a mounted collection" % impl[4:]
     if not impl.startswith("ok "):
@@ -972,7 +976,7 @@ class Gen:
         clean = self.profile.get("clean")
         ring = n is None and r.random() < 0.2 and not clean
         if n is None:
-            n = r.choice([2, 3, 9, 10]) if clean else r.choice([2, 3, 9, 10, 11, 12, 13])
+            n = r.choice([2, 3, 9, 10, 11]) if clean else r.choice([2, 3, 9, 10, 11, 12, 13])
         d = ()
         names = ["ch%d" % i for i in range(n)]
         end = "chend"
@@ -986,7 +990,7 @@ class Gen:
         """directory links nested inside each other: every level costs one follow on the same descent path"""
         r = self.rng
         if n is None:
-            n = r.choice([2, 5, 10]) if self.profile.get("clean") else r.choice([2, 5, 10, 11, 12])
+            n = r.choice([2, 5, 10, 11]) if self.profile.get("clean") else r.choice([2, 5, 10, 11, 12])
         for i in range(n):
             self.add(("n%d" % i,), "d")
             self.add(("n%d" % i, "v"), "f", (self.fresh_seed(), 2))
@@ -1106,7 +1110,7 @@ def nontrivial_key(case, impl):
 def describe(cases, impl):
     d = {"outcomes": {}, "links_followed": 0, "cases_with_irregular_link": 0, "cases_with_cycle": 0,
          "cases_must_fail": 0, "cases_with_dangling": 0, "mounts_below_output": 0, "collection_mounts": 0,
-         "secrets": 0, "max_chain": 0, "entries": {}, "multi_block_files": 0, "special_files": 0}
+         "secrets": 0, "max_chain": 0, "cases_with_11_links_on_a_path": 0, "cases_with_12plus_links_on_a_path": 0, "entries": {}, "multi_block_files": 0, "special_files": 0}
     for c, r in zip(cases, impl):
         key = (r or "none").split(" ")[0:2]
         key = " ".join(key) if key and key[0] in ("err", "panic") else key[0]
@@ -1131,6 +1135,8 @@ def describe(cases, impl):
             d["cases_must_fail"] += 1 if v.bad else 0
             d["cases_with_dangling"] += 1 if v.free else 0
             d["max_chain"] = max(d["max_chain"], v.max_used)
+            d["cases_with_11_links_on_a_path"] += 1 if v.max_used == MUST_FOLLOW else 0
+            d["cases_with_12plus_links_on_a_path"] += 1 if v.max_used > MUST_FOLLOW else 0
     return d
 
 
